@@ -299,12 +299,21 @@ func runC11(c *core.Ctx) *core.Outcome {
 			h := m.handles[0]
 			h.SetPrefix(x.typ)
 			h.SetSession(x.sid)
+			// a caller that has seen enough stops reading and drops the listing, without Close
+			stopAfter := 0
+			if t.Chance(1, 3) {
+				stopAfter = t.Range(1, 2)
+			}
 			pm, pat := world.Guard(func() {
 				d, err := h.Dump(ctx, []byte{})
 				if err != nil {
 					return
 				}
 				for k := 0; k < 1000; k++ {
+					if stopAfter > 0 && k == stopAfter {
+						o.Probes["listing_abandoned_midway"]++
+						return
+					}
 					kk, vv := d.Next(ctx)
 					if kk == nil {
 						break
